@@ -36,8 +36,9 @@ ASSUMPTIONS = [
     "N x 1 / 1 x N / 2 x 2 inputs are not generated (not listed by the statement / ambiguous)",
 ]
 
-LAYOUTS_1 = ["1d", "1d", "1d_list", "1d_strided", "1d_reversed", "1d_offset", "1d_readonly"]
-LAYOUTS_2 = ["2xN", "2xN", "Nx2", "Nx2_view", "list_arrays", "tuple_arrays", "list_lists", "fortran", "strided", "reversed", "offset", "2xN_readonly", "rows_of_bigger"]
+LAYOUTS_1 = ["1d", "1d", "1d_list", "1d_strided", "1d_reversed", "1d_offset", "1d_readonly", "1d_array_array", "1d_memoryview"]
+LAYOUTS_2 = ["2xN", "2xN", "Nx2", "Nx2_view", "list_arrays", "tuple_arrays", "list_lists", "fortran", "strided", "reversed", "offset", "2xN_readonly", "rows_of_bigger", "list_mixed"]
+_NO_INJECT = ("1d_readonly", "2xN_readonly", "1d_list", "list_lists", "1d_array_array", "1d_memoryview", "list_mixed")
 DTYPES = ["f8", "f8", "f8", "f8", "f4", ">f8", "i2", "i8", "bool", "longdouble"]
 FAULT_KINDS = ["nan", "pinf", "ninf", "payload"]
 FINITE_NAMES_AUTO = ["Gxx", "Gyy", "Gxy", "ENBW", "psd", "asd", "ps"]
@@ -180,7 +181,7 @@ def generate(seed, tier):
             ops.append(["construct_other", rw.randrange(2 ** 31)])     # an analyzer on ANOTHER non-finite record of the same shape
     # the faults may also arrive *during* the history: the caller's buffer is analysed while still clean, then the
     # non-finite samples are written into the same buffer in place, and it is analysed again
-    if faults and not huge and rw.random() < 0.3 and layout not in ("1d_readonly", "2xN_readonly", "1d_list", "list_lists"):
+    if faults and not huge and rw.random() < 0.3 and layout not in _NO_INJECT:
         k = rw.randrange(1, len(ops) + 1)
         ops.insert(k, ["inject"])
         if not any(o[0] in ("construct", "construct2") for o in ops[k + 1:]):
@@ -259,6 +260,27 @@ def materialise(sc, with_faults=True):
         off = 3 if dt.itemsize > 1 else 1
         obj = raw[off:off + N * dt.itemsize].view(dt)
         obj[:] = typed
+    elif lay == "1d_array_array":
+        # a buffer exporter that is not an ndarray: NumPy wraps its memory without copying
+        import array
+
+        code = {"f8": "d", "f4": "f", "i2": "h", "i8": "q"}.get(sc["dtype"])
+        if code is None:
+            obj = own(typed.copy())
+        else:
+            obj = array.array(code, typed.tobytes())
+            bufs.append(np.frombuffer(obj, dtype=dt))       # monitor: a view of the exporter's own memory
+    elif lay == "1d_memoryview":
+        keep = own(typed.copy())
+        obj = memoryview(keep) if sc["dtype"] in ("f8", "f4", "i2", "i8") else keep
+    elif lay == "list_mixed":
+        # two channels recorded with different precision: [float32 array, float64 array]
+        if sc["dtype"] == "f8":
+            a, b = own(typed[0].astype(np.float32)), own(typed[1].copy())
+            logical[0] = a.astype(np.float64)
+        else:
+            a, b = own(typed[0].copy()), own(typed[1].copy())
+        obj = [a, b]
     elif lay == "2xN":
         obj = own(typed.copy())
     elif lay == "2xN_readonly":
@@ -422,11 +444,15 @@ def execute(sc, out):
         strict = sc.get("seed", 0) % 5 == 1
         if strict:
             out.count("deprecations_are_errors_caller")
+        # ... and a caller that has silenced logging (logging.disable(WARNING)): the sanitising must not hang on the message
+        quiet = sc.get("seed", 0) % 7 == 3
+        if quiet:
+            out.count("logging_silenced_caller")
         for op in sc["ops"]:
             kind = op[0]
             out.sim_steps += 1
             try:
-                with clock.installed(), _strict_caller(strict):
+                with clock.installed(), _strict_caller(strict), _quiet_caller(quiet):
                     if kind == "inject":
                         # the caller writes the non-finite samples into the SAME buffer, in place, after it was analysed clean
                         for ch, i, fk in sc["faults"]:
@@ -585,6 +611,27 @@ def _diff_vs_canonical(raw, can_raw, world, canon, cfg, out):
                 return nm
     out.count("real_numba_ulp_difference_within_budget")
     return None
+
+
+class _quiet_caller:
+    def __init__(self, on):
+        self.on = on
+        self.prev = None
+
+    def __enter__(self):
+        if self.on:
+            import logging
+
+            self.prev = logging.root.manager.disable
+            logging.disable(logging.WARNING)
+        return self
+
+    def __exit__(self, *exc):
+        if self.on:
+            import logging
+
+            logging.disable(self.prev if self.prev is not None else logging.NOTSET)
+        return False
 
 
 class _strict_caller:
